@@ -666,3 +666,77 @@ Proof.
     cbn [oer_var oer]. apply IHt.
   - destruct v; try reflexivity. cbn [oer_var oer]. apply IHt.
 Qed.
+
+(* ---------------- oer_cdec and the shared reference decoder ---------------- *)
+
+Section Ext.
+  Variables f g : ty -> list Z -> option (val * list Z).
+
+  Definition agree (t : ty) : Prop := forall s, f t s = g t s.
+  Definition agree_m (m : ty) : Prop := match m with TOpt t' => agree t' | _ => agree m end.
+
+  Lemma dec_members_pres_ext ms : Forall agree_m ms ->
+    forall pres s, dec_members_pres f ms pres s = dec_members_pres g ms pres s.
+  Proof.
+    induction 1 as [|m ms' Hm Hms IH]; intros pres s; [reflexivity|].
+    destruct m; cbn [dec_members_pres agree_m] in *;
+      try (rewrite Hm; destruct (g _ s) as [[v r]|]; [rewrite IH|]; reflexivity).
+    destruct pres as [|[|] pres']; [reflexivity| |].
+    - rewrite Hm. destruct (g m s) as [[v r]|]; [rewrite IH|]; reflexivity.
+    - rewrite IH. reflexivity.
+  Qed.
+
+  Lemma dec_items_ext (e : ty) : agree e -> forall n s, dec_items (f e) n s = dec_items (g e) n s.
+  Proof.
+    intros He. induction n as [|n IH]; intros s; [reflexivity|].
+    cbn [dec_items]. rewrite He. destruct (g e s) as [[v r]|]; [rewrite IH|]; reflexivity.
+  Qed.
+
+  Lemma dec_alt_ext sel s alts : Forall agree alts -> forall i, dec_alt f sel s alts i = dec_alt g sel s alts i.
+  Proof.
+    induction 1 as [|a r Ha Hr IH]; intros i; [reflexivity|].
+    cbn [dec_alt]. rewrite Ha, IH. reflexivity.
+  Qed.
+End Ext.
+
+(* the decoder parametrised by the two readers of lengths IS the reference decoder of Rt/Oer.v when given its readers:
+   oer_cdec differs from oer_dec in oer_fetch_length / oer_fetch_quantity only *)
+Theorem oer_dec_g_ref t : forall bs, oer_dec_g oer_get_length oer_get_quantity t bs = oer_dec t bs.
+Proof.
+  set (G := oer_dec_g oer_get_length oer_get_quantity).
+  assert (H : agree G oer_dec t /\ agree_m G oer_dec t).
+  { induction t using ty_ind'.
+    - split; intros bs; reflexivity.
+    - split; intros bs; reflexivity.
+    - split; intros bs; reflexivity.
+    - split; intros bs; reflexivity.
+    - assert (A : agree G oer_dec (TSeq tg ms)).
+      { intros bs. unfold G. cbn [oer_dec_g oer_dec]. fold G.
+        destruct (take _ bs) as [[pb r0]|]; [|reflexivity].
+        destruct (take_bits _ _) as [[pres x]|]; [|reflexivity].
+        rewrite (dec_members_pres_ext G oer_dec ms); [reflexivity|].
+        eapply Forall_impl; [|exact H]. intros a [_ Ha]. exact Ha. }
+      split; exact A.
+    - assert (A : agree G oer_dec (TSeqOf tg s t)).
+      { intros bs. unfold G. cbn [oer_dec_g oer_dec]. fold G.
+        destruct (oer_get_quantity bs) as [[n r]|]; [|reflexivity].
+        rewrite (dec_items_ext G oer_dec t (proj1 IHt)). reflexivity. }
+      split; exact A.
+    - assert (A : agree G oer_dec (TSetOf tg s t)).
+      { intros bs. unfold G. cbn [oer_dec_g oer_dec]. fold G.
+        destruct (oer_get_quantity bs) as [[n r]|]; [|reflexivity].
+        rewrite (dec_items_ext G oer_dec t (proj1 IHt)). reflexivity. }
+      split; exact A.
+    - assert (A : agree G oer_dec (TChoice alts)).
+      { intros bs. unfold G. cbn [oer_dec_g oer_dec]. fold G.
+        destruct (oer_get_tag bs) as [[tg r]|]; [|reflexivity].
+        apply dec_alt_ext. eapply Forall_impl; [|exact H]. intros a [Ha _]. exact Ha. }
+      split; exact A.
+    - assert (A : agree G oer_dec (TTag tg t)).
+      { intros bs. unfold G. cbn [oer_dec_g oer_dec]. fold G. apply (proj1 IHt). }
+      split; exact A.
+    - split.
+      + intros bs. unfold G. cbn [oer_dec_g oer_dec]. fold G. rewrite (proj1 IHt bs). reflexivity.
+      + cbn [agree_m]. exact (proj1 IHt). }
+  exact (proj1 H).
+Qed.
